@@ -311,3 +311,54 @@ Proof.
   destruct (pstep Min max_t sys ev) as [s o]. simpl in *. rewrite (IH s H2).
   destruct (prun Min max_t s evs) as [s' os]. reflexivity.
 Qed.
+
+(* ---- failed trials (NaN) rank last in BOTH modes ------------------------------------------------ *)
+From Coq Require Import Permutation.
+
+Lemma insert_by_perm {A} (before : A -> A -> bool) x l : Permutation (insert_by before x l) (x :: l).
+Proof.
+  induction l as [|y l IH]; simpl; [apply Permutation_refl|].
+  destruct (before y x); [|apply Permutation_refl].
+  eapply Permutation_trans; [apply perm_skip; exact IH|apply perm_swap].
+Qed.
+
+Lemma stable_sort_perm {A} (before : A -> A -> bool) l : Permutation (stable_sort before l) l.
+Proof.
+  unfold stable_sort. induction l as [|x l IH]; simpl; [constructor|].
+  eapply Permutation_trans; [apply insert_by_perm|apply perm_skip; exact IH].
+Qed.
+
+(* as long as there are enough valid entries, no failed trial is promoted - whatever the mode *)
+Theorem get_top_list_failed_last rung new_len md :
+  (new_len <= length (valid_entries rung))%nat ->
+  forall t, In t (fst (get_top_list rung new_len md)) -> In t (map fst (valid_entries rung)).
+Proof.
+  intros Hlen t Hin. unfold get_top_list in Hin. simpl in Hin.
+  destruct (new_len <=? length (valid_entries rung))%nat eqn:E; [|lia].
+  apply in_map_iff in Hin as [e [He Hin]]. apply firstn_incl in Hin.
+  apply (Permutation_in _ (stable_sort_perm _ _)) in Hin. apply in_map_iff. exists e. split; assumption.
+Qed.
+
+(* ... and the promoted list has exactly the requested length *)
+Theorem get_top_list_length rung new_len md :
+  (new_len <= length (valid_entries rung))%nat -> length (fst (get_top_list rung new_len md)) = new_len.
+Proof.
+  intro Hlen. unfold get_top_list. simpl. destruct (new_len <=? length (valid_entries rung))%nat eqn:E; [|lia].
+  rewrite map_length, firstn_length, (Permutation_length (stable_sort_perm _ _)). lia.
+Qed.
+
+(* ---- MOASHA shell: whole-sequence mirror incl. on_trial_complete entries ------------------------ *)
+Definition mo_mirror (mask : list bool) (ev : mo_event) : mo_event :=
+  match ev with
+  | MoResult t it vals => MoResult t it (negate_vals mask vals)
+  | MoComplete t it vals => MoComplete t it (negate_vals mask vals)
+  end.
+
+Theorem moasha_mode_symmetry prio rf max_t mask modes evs : forall b,
+  mo_run prio rf max_t (flip_modes mask modes) b (map (mo_mirror mask) evs) = mo_run prio rf max_t modes b evs.
+Proof.
+  induction evs as [|ev evs IH]; intro b; simpl; [reflexivity|].
+  assert (Hs : mo_step prio rf max_t (flip_modes mask modes) b (mo_mirror mask ev) = mo_step prio rf max_t modes b ev).
+  { destruct ev; simpl; rewrite moasha_metric_dict_mode_symmetry; reflexivity. }
+  rewrite Hs, IH. reflexivity.
+Qed.
